@@ -319,7 +319,19 @@ func (c *Cluster) installHooks() {
 		return s[c.inner.Intn(len(s))], true
 	}
 	node.SimDefer = func(wake func()) { c.wakeups = append(c.wakeups, wake) }
-	node.SimYield = nil
+	// lock gaps without a transport call (H9): an interleaved gossip may be parked there too
+	node.SimYield = func(nd *node.Node, site string) {
+		t := c.curTask
+		if t == nil || t.kind != "gossip" || t.plan == nil {
+			return
+		}
+		if d := t.plan[site]; d > 0 {
+			t.plan[site] = 0
+			c.stats.probe("yield-parked:" + site)
+			c.park(t, d)
+			c.curTask = t
+		}
+	}
 }
 
 func uninstallHooks() {
